@@ -100,6 +100,46 @@ def in_scope(prop, rej):
     return True
 
 
+SORTM = {'SortValues', 'SortValuesWithRanker', 'ReverseValues', 'ShuffleValues'}
+
+
+def run_pairs(ctx, families, codecs):
+    """World part of a check decided elsewhere (C09): every pair of consecutive
+    edges of the given families replayed and validated; rejections whose script
+    involves a Sortable method are violations of ctx.prop"""
+    traces, scripts_by_file = [], {}
+    cov = {'families': {}, 'pair_scripts': 0}
+    for fam, consts in families:
+        edges, stats = we.gen_edges(ctx, fam, *consts, workers=min(8, core.NCPU))
+        scripts, _ = we.make_scripts(edges, ctx.seed, pairs=True)
+        byid = {s['id']: s for s in scripts}
+        cov['families'][fam] = {'constants': list(consts), 'edges': len(edges), 'distinct_states': stats['distinct'], 'scripts': len(scripts)}
+        cov['pair_scripts'] += len(scripts) - 2 * len(edges)
+        with cf.ThreadPoolExecutor(max_workers=core.NCPU) as ex:
+            futs = {c: ex.submit(we.run_scripts, ctx, c, scripts, fam) for c in codecs}
+            for c, f in futs.items():
+                tf = f.result()
+                traces.append(tf)
+                scripts_by_file[os.path.basename(tf)] = byid
+    total, rejects = we.validate(ctx, traces)
+    cov['trace_lines_validated'] = total
+    cov['rejected_lines'] = len(rejects)
+    oos = 0
+    for rej in rejects:
+        byid = scripts_by_file.get(rej['file'], {})
+        sc = byid.get(rej['line'].get('sid'))
+        steps = sc['steps'] if sc else []
+        if rej['line']['m'] in SORTM or any(st['m'] in SORTM for st in steps):
+            we.judge(ctx, [rej], lambda fname: fname.rsplit('_', 1)[1].split('.')[0], byid)
+        else:
+            oos += 1
+            if oos <= 3:
+                x = rej['line']
+                print("OUT-OF-SCOPE: %s.%s%s rejected by World.tla; not a matter of %s" % (x['k'], x['m'], x['args'], ctx.prop))
+    cov['rejected_out_of_scope'] = oos
+    return cov
+
+
 def run(ctx):
     conf = CONF[ctx.prop]
     ti = 0 if ctx.quick else 1
